@@ -1,0 +1,7 @@
+//go:build !verif
+
+package go9p
+
+// verifPoint is a schedule point used by the runtime verification harness.
+// Without the "verif" build tag it is an empty function.
+func verifPoint(point string, obj interface{}) {}
